@@ -317,7 +317,9 @@ func c08Make(cs *c08Case, r *labRun, rng *rand.Rand, k int) []byte { //nolint:cy
 			ep = 1
 		}
 
-		return c08Plain([]byte{23, 22, 21, 25, 26}[rng.Intn(5)], ep, uint64(rng.Int63n(1<<20)), body)
+		// (content type 20 too: the record protection hands a ChangeCipherSpec through without authenticating it, whatever
+		// its epoch - the reader must not act on what it then finds)
+		return c08Plain([]byte{23, 22, 21, 25, 26, 20}[k%6], ep, uint64(rng.Int63n(1<<20)), body)
 	case "future-epoch": // records one or more epochs ahead (queued without authentication, bounded)
 		return c08Plain([]byte{23, 22, 21}[rng.Intn(3)], remoteEpoch+1+uint16(rng.Intn(2)), uint64(k), rnd(8+rng.Intn(40)))
 	case "bitflip-protected":
